@@ -1,15 +1,16 @@
 (* C14  Replaying the same history gives identical state, transfers and events.
    Logic part: (1) the model's transition is a function of state and operation, the sweep order it takes
    as oracle is validated, and the five places where the Go code ranges over a map compute
-   order-independent results; (2) the census of such loops, regenerated from the source on every run,
-   is exactly the one accounted for.  The runtime part (real map iteration, processes) is exercised by
+   order-independent results; (2) every loop of the census of such loops, regenerated and classified from the
+   source on every run, is of one of the two order-independent shapes, calls nothing with an effect and has no
+   early exit (MapLoopsSpec.loop_safe).  The runtime part (real map iteration, processes) is exercised by
    the repeated-execution check of bin/check C14 and cannot be exhibited by the model. *)
 From Coq Require Import ZArith NArith List Bool String Permutation Sorted.
 From FR Require Import Dec Types Match Model MapLoopsSpec Proofs.Determinism.
 From FR.Generated Require Import MapLoops.
 Import ListNotations.
 
-Theorem C14_census : map_loops = map fst expected_map_loops.
+Theorem C14_census : forallb loop_safe map_loops = true.
 Proof. vm_compute. reflexivity. Qed.
 Print Assumptions C14_census.
 
